@@ -6,9 +6,10 @@ import pipeline
 import talgen
 
 PID = 'C13'
-PROOF_MODULES = ['ChamProofs.Props.C13', 'ChamProofs.Props.C13Exact']
+PROOF_MODULES = ['ChamProofs.Props.C13', 'ChamProofs.Props.C13Exact', 'ChamProofs.Props.C13Loc']
 THEOREMS = ['ChamVerif.C13_handler_exact', 'ChamVerif.C13_error_bound', 'ChamVerif.good_all', 'ChamVerif.good_eval', 'ChamVerif.C13_exact',
-            'ChamVerif.C13_pass_through', 'ChamVerif.C13_base_exception_propagates']
+            'ChamVerif.C13_pass_through', 'ChamVerif.C13_base_exception_propagates',
+            'ChamVerif.C13_error_position_exact']
 LEVEL_TEXT = ('Proved in Lean on the whole interpreter model: rendering only appends to the output — for every node, scope, state and fuel the '
               'evaluator leaves what was on the output stack untouched and extends the current stream at its end, also when it raises '
               '(good_all / good_eval: induction on the fuel over all four mutually recursive functions and every node kind, macro calls, '
@@ -21,7 +22,8 @@ LEVEL_TEXT = ('Proved in Lean on the whole interpreter model: rendering only app
               'translation sub-streams were open — increments the handler-call count once and binds `error` '
               '(C13_handler_exact, C13_error_bound; for the per-node saved length the code has after the D-13a fix). The node interpreter '
               'these lemmas are about is tied to the code by end-to-end correspondence (output, evaluation log, handler-call count) on '
-              'generated templates with nested handlers and planted failures, and judged by an independent constructive oracle.')
+              'generated templates with nested handlers and planted failures, and judged by an independent constructive oracle.'
+              " error.lineno / error.offset give back the failing expression's offset exactly (C13_error_position_exact, from C11_location_exact).")
 LEVEL_NOTE = ('Trusted: Lean kernel; the node interpreter as a model of the generated Python (validated by correspondence, not proved). '
               'The theorems hold for the per-node saved length (sharedFallbackVar = false), the behaviour of /repo after the D-13a fix.')
 RULE = ('constructive family: trees of elements with tal:on-error on any subset (nesting <= 4, with omit-tag, define, condition, translation '
